@@ -79,7 +79,7 @@ def gen_history(rng, ctx):
         r0 = rng.random()
         if r0 > 0.95:
             if rng.random() < 0.5:
-                events.append(["copy", int(rng.integers(0, n_sk)), pick(rng, ["deepcopy", "pickle", "copy"])])
+                events.append(["copy", int(rng.integers(0, n_sk)), pick(rng, ["deepcopy", "pickle", "copy", "shallow"])])
             else:
                 nk = int(rng.integers(3, 6))  # equal-sized chunks: the temporaries perform the same number of calls
                 events.append(["tmpmerge", int(rng.integers(0, n_sk)), [["ulist", [hx(rand_key(rng, 1, 9)) for _ in range(nk)]]]])
@@ -107,7 +107,7 @@ def gen_history(rng, ctx):
 def run_history(case, ctx, mon):
     s = sk()
     p, seed, n = case["p"], case["seed"], case["n"]
-    real = [s.HyperLogLog(p, seed) for _ in range(n)]
+    real = [state.maybe_relayout(s.HyperLogLog(p, seed)) for _ in range(n)]
     model = [Model(p, seed) for _ in range(n)]
     n_dups = 0
     n_merges = 0
@@ -128,7 +128,7 @@ def run_history(case, ctx, mon):
         elif ev[0] == "tmpmerge":
             # a temporary sketch is filled, merged in and dropped (the next temporary may live at the same address)
             a = ev[1]
-            tmp, tm = s.HyperLogLog(p, seed), Model(p, seed)
+            tmp, tm = state.maybe_relayout(s.HyperLogLog(p, seed)), Model(p, seed)
             for op in ev[2]:
                 ops.apply_op(tmp, op)
                 for k, _v in ops.effects(op):
@@ -241,7 +241,7 @@ def gen_crafted(rng, ctx):
 def run_crafted(case, ctx, mon):
     s = sk()
     p, seed, key = case["p"], case["seed"], unhx(case["key"])
-    h = s.HyperLogLog(p, seed)
+    h = state.maybe_relayout(s.HyperLogLog(p, seed))
     m = Model(p, seed)
     mon.api(h.add, key)
     m.add(key, mon)
@@ -315,7 +315,7 @@ def run_exhaustive(case, ctx, mon):
     want = hll_ref.registers_for(keys, p, seed)
     n_states = set()
     for perm in itertools.permutations(range(len(keys))):
-        h = s.HyperLogLog(p, seed)
+        h = state.maybe_relayout(s.HyperLogLog(p, seed))
         for i in perm:
             h.add(keys[i])
         if not np.array_equal(h.registers, want):
@@ -324,7 +324,7 @@ def run_exhaustive(case, ctx, mon):
         n_states.add(h.registers.tobytes())
     ref_q = None
     for mask in range(1 << len(keys)):
-        a, b = s.HyperLogLog(p, seed), s.HyperLogLog(p, seed)
+        a, b = state.maybe_relayout(s.HyperLogLog(p, seed)), state.maybe_relayout(s.HyperLogLog(p, seed))
         for i, k in enumerate(keys):
             (a if (mask >> i) & 1 else b).add(k)
         a2 = s.HyperLogLog(p, seed)
@@ -364,7 +364,7 @@ def run_threads(case, ctx, mon):
 
     s = sk()
     p, seed, n_thr = case["p"], case["seed"], case["threads"]
-    h = s.HyperLogLog(p, seed)
+    h = state.maybe_relayout(s.HyperLogLog(p, seed))
     rng = np.random.default_rng(case["stream"])
     sets = [[bytes(rng.integers(0, 256, 5, dtype=np.uint8)) + bytes([t]) for _ in range(case["keys"])] for t in range(n_thr)]
     barrier = threading.Barrier(n_thr)
@@ -397,22 +397,26 @@ def run_bigkeys(case, ctx, mon):
     rng = np.random.default_rng(case["stream"])
     seed = case["seed"]
     keys = [rng.bytes(n) for n in case["lengths"]]
-    sketches = {p: s.HyperLogLog(p, seed) for p in case["ps"]}
+    sketches = {p: state.maybe_relayout(s.HyperLogLog(p, seed)) for p in case["ps"]}
     model = {p: set() for p in case["ps"]}
     for rnd in range(2):
         for k in keys:
             for p in (case["ps"] if rnd == 0 else case["ps"][::-1]):
                 mon.api(sketches[p].add, k)
                 model[p].add(k)
-    doc = rng.bytes(case["doc_len"])
     n = case["ngram"]
-    wins = set(hll_ref.windows(doc, n))
-    for p in case["ps"]:
-        if p % 2:
-            mon.api(sketches[p].add_ngram, doc, n)
-        else:
-            mon.api(sketches[p].update_ngram, [doc], n)
-        model[p] |= wins
+    wins = set()
+    for j in range(case.get("docs", 1)):
+        # several documents: whether a window that a length-gated path might drop matters for a register is a coin flip per document
+        doc = rng.bytes(case["doc_len"] + j)
+        w_j = set(hll_ref.windows(doc, n))
+        wins |= w_j
+        for p in case["ps"]:
+            if (p + j) % 2:
+                mon.api(sketches[p].add_ngram, doc, n)
+            else:
+                mon.api(sketches[p].update_ngram, [doc], n)
+            model[p] |= w_j
     for p in case["ps"]:
         want = hll_ref.registers_for(model[p], p, seed)
         bad = np.flatnonzero(np.asarray(sketches[p].registers) != want)
@@ -425,7 +429,7 @@ def run_bigkeys(case, ctx, mon):
 
 def gen_cases(ctx):
     rng = ctx.rng("cases")
-    yield {"type": "bigkeys", "seed": pick(rng, [0, 7]), "ps": [12, 16, 9], "lengths": [65535, 65536, 70001, 200000], "doc_len": 66000 + int(rng.integers(0, 9)),
+    yield {"type": "bigkeys", "seed": pick(rng, [0, 7]), "ps": [12, 16, 9], "lengths": [65535, 65536, 70001, 200000], "doc_len": 66000 + int(rng.integers(0, 9)), "docs": 7,
            "ngram": pick(rng, [3, 4, 7]), "stream": int(rng.integers(0, 2**31))}
     for rep in range(3 if ctx.quick else 8):
         # p = 7: 128 registers, thousands of keys per thread -> every register is contended
